@@ -74,6 +74,96 @@ theorem http_whole_request (frame : Ev → Bytes) (lim : Nat) (wd : WD) (batch :
   simp only [httpLikeOut, sendWhole]
   exact ⟨_, _, _, rfl, rfl⟩
 
+/-! ### elasticsearch -/
+
+/-- the action line of an event that is not a Fatal configuration error (`[]` otherwise) -/
+def esAction (c : EsCfg) (e : Ev) : Bytes :=
+  match actionLine true c e with
+  | some a => a
+  | none => []
+
+/-- **elasticsearch, the fix's guarantee**: WHATEVER bytes the index field holds (quotes,
+    newlines, NUL, invalid UTF-8 …), the action line is `{"<op>":{"_index":<one JSON string>}}`
+    and contains no newline — provided the operator's `index_format` / time text are plain. -/
+theorem es_action_valid (c : EsCfg) (e : Ev) (a : Bytes)
+    (hop : NL ∉ c.op) (hf : ∀ b ∈ c.format, SafeByte b) (ht : ∀ b ∈ c.time, SafeByte b)
+    (h : actionLine true c e = some a) :
+    validAction c.op a = true ∧ NL ∉ a := by
+  obtain ⟨x, hx, hc⟩ := actionLine_shape c e a hf ht h
+  subst hx
+  constructor
+  · unfold validAction
+    have : headerPrefix c ++ x ++ [34, 125, 125] = (lit "{\"" ++ c.op ++ lit "\":{\"_index\":\"") ++ (x ++ [34, 125, 125]) := by
+      simp [headerPrefix]
+    rw [this, stripPrefix_append]
+    simp only []
+    rw [hc.2]
+    decide
+  · have h1 : NL ∉ headerPrefix c := by
+      simp only [headerPrefix, lit, List.mem_append, not_or]
+      exact ⟨⟨by decide, hop⟩, by decide⟩
+    simp only [List.mem_append, not_or]
+    exact ⟨⟨h1, hc.1⟩, by decide⟩
+
+example : actionLine true ⟨lit "index", lit "i-%", [], [lit "idx"]⟩ ⟨0, [], [lit "a\"}}\n{\"x"]⟩
+    = some (lit "{\"index\":{\"_index\":\"i-a\\\"}}\\u000a{\\\"x\"}}") := by decide
+
+/-- **elasticsearch**: the bulk body unframes to (action line, document) pairs, one per
+    deliverable event, in order -/
+theorem es_frames (c : EsCfg) (lim : Nat) (wd : WD) (batch : List Ev)
+    (hop : NL ∉ c.op) (hf : ∀ b ∈ c.format, SafeByte b) (ht : ∀ b ∈ c.time, SafeByte b)
+    (hcfg : ∀ e ∈ deliverable batch, (actionLine true c e).isSome)
+    (henc : ∀ e ∈ deliverable batch, NL ∉ e.enc) :
+    unframeES (buildAcc (esFrame true c) lim wd batch).buf.data
+      = some ((deliverable batch).map (fun e => (esAction c e, e.enc))) := by
+  rw [(buildAcc_spec (esFrame true c) lim wd batch).1]
+  have hfr : ∀ e ∈ deliverable batch, esFrame true c e = esAction c e ++ [NL] ++ (e.enc ++ [NL]) := by
+    intro e he
+    have := hcfg e he
+    cases ha : actionLine true c e with
+    | none => simp [ha] at this
+    | some a => simp [esFrame, esFrame?, esAction, ha]
+  have hbody : ((deliverable batch).map (esFrame true c)).flatten
+      = (((deliverable batch).map (fun e => (esAction c e, e.enc))).flatMap (fun p => [p.1, p.2])).flatMap (· ++ [NL]) := by
+    generalize deliverable batch = l at hfr
+    induction l with
+    | nil => rfl
+    | cons e es ih =>
+      simp only [List.map_cons, List.flatten_cons, List.flatMap_cons]
+      rw [ih (fun x hx => hfr x (by simp [hx])), hfr e (by simp)]
+      simp
+  rw [hbody]
+  unfold unframeES
+  rw [unframeSep_frames NL]
+  · simp [pairUp_interleave]
+  · intro x hx
+    simp only [List.mem_flatMap, List.mem_map] at hx
+    obtain ⟨p, ⟨e, he, rfl⟩, hx⟩ := hx
+    simp at hx
+    rcases hx with rfl | rfl
+    · cases ha : actionLine true c e with
+      | none => have := hcfg e he; simp [ha] at this
+      | some a =>
+        have := (es_action_valid c e a hop hf ht ha).2
+        simpa [esAction, ha] using this
+    · exact henc e he
+
+/-- the code before the fix spliced the value as it is (`esc = false`) -/
+def EsFramesUnescaped : Prop :=
+  ∀ (c : EsCfg) (batch : List Ev), NL ∉ c.op → (∀ b ∈ c.format, SafeByte b) → (∀ b ∈ c.time, SafeByte b) →
+    (∀ e ∈ deliverable batch, NL ∉ e.enc) →
+    (unframeES (buildAcc (esFrame false c) 0 none batch).buf.data).map List.length = some (deliverable batch).length
+
+/-- before the fix: ONE event whose index field is `a"}}\n{"delete":{"_index":"x` makes a bulk body
+    of two action/document pairs (replayed on the implementation: corpus/C19/es-index-injection.case) -/
+theorem es_unescaped_counterexample : ¬ EsFramesUnescaped := by
+  intro h
+  have := h ⟨lit "index", lit "f-%", lit "t", [lit "idx"]⟩
+    [⟨0, lit "{}", [lit "a\"}}\n{\"delete\":{\"_index\":\"x"]⟩]
+    (by decide) (by decide) (by decide) (by decide)
+  revert this
+  decide
+
 /-! ### buffer reuse -/
 
 /-- **buffer reuse**: what a batch produces does not depend on the worker data left by the
